@@ -48,6 +48,15 @@ class Obj:
             object.__setattr__(self, k, v)
 
 
+def _bind_star(fn: ast.FunctionDef, params: list, args: list, kwargs: dict | None, env: dict) -> None:
+    """*args / **kwargs parameters"""
+    if fn.args.vararg is not None:
+        env[fn.args.vararg.arg] = tuple(args[len(params):])
+    if fn.args.kwarg is not None:
+        named = set(params) | {k.arg for k in fn.args.kwonlyargs}
+        env[fn.args.kwarg.arg] = {k: v for k, v in (kwargs or {}).items() if k not in named}
+
+
 class MiniEval:
     def __init__(self, globals_: dict[str, Any], *, calls: dict[str, Callable] | None = None,
                  methods: Callable[[Any, str, list, dict], Any] | None = None):
@@ -78,6 +87,7 @@ class MiniEval:
                 env[a.arg] = self.expr(d, {})
             else:
                 raise Unsupported(f'missing kw argument {a.arg}')
+        _bind_star(fn, params, args, kwargs, env)
         if _is_generator(fn):
             # eager semantics: the yielded values are collected (sound for generators without side effects
             # that are consumed by iteration; a consumer that stops early only sees a prefix)
